@@ -225,6 +225,8 @@ class WrapperLock:
             if self.name == 'tl':
                 rec.emit('Lock', op='releasing')                       # logged while the lock is still held
         self.real.release()
+        if rec.armed and self.name == 'tl' and rec.sched is not None:
+            rec.sched.hint = 'released'
 
     __enter__ = acquire
 
